@@ -56,6 +56,16 @@ def check(run, driver):
         "Non-trivial = at least 2 edges with two different positive lags; distinct by content hash"
     )
     thorough = run.tier == "thorough"
+    # ---- translator: subnetwork's filter / copied attributes / defaults and companion_matrix's loop ranges and slice arithmetic are
+    #      read off the CURRENT source and must be the model's (subEdges, companion: setBlock C 0 (l*n), setBlock C ((k+1)*n) (k*n))
+    import gen_tables
+    try:
+        src = gen_tables.linalg_obligation_source()
+        ok, out = gen_tables.obligation_standalone("ObC16", src)
+        run.oblige("ObC16 subnetwork filter/attributes/defaults and companion_matrix block arithmetic regenerated from the source = the model's (decide / ring)", ok, out if not ok else "")
+        run.extra["translator"] = "subnetwork and companion_matrix translated"
+    except gen_tables.Untranslatable as e:
+        run.extra["translator"] = f"UNTRANSLATABLE ({e}) -- outside the recognised shape; the obligation is not established on this run and the property is decided by the comparison with the model and the block-form definition alone"
     rng = run.rng
     graphs = []
     # exhaustive small scope
